@@ -33,6 +33,9 @@ impl PathBuf {
     // ASSUMED[path-abs-view]: for an absolute clean path the component sequence is RootDir followed by its names
     #[verifier::external_body]
     pub proof fn ax_abs(&self) ensures self.abs_clean() <==> self.comps() == abs_comps(self@) { }
+    // same assumption read the other way: a component sequence of that shape IS an absolute clean path with exactly those names
+    #[verifier::external_body]
+    pub proof fn ax_abs_of(&self, v: PathV) ensures self.comps() == abs_comps(v) ==> self.abs_clean() && self@ == v { }
     #[verifier::external_body]
     pub proof fn ax_eq(&self, o: &PathBuf) ensures self.comps() == o.comps() ==> (self.abs_clean() == o.abs_clean() && self@ == o@) { }
 
